@@ -16,9 +16,9 @@ Each read is compared with a plain-Python reference model of the statement:
    regression      rewards(a) = -|a - y| on a grid
    all             number and order = the examples, or the real pipes.Reservoir(take) applied to the example indexes
 """
-import itertools, json, os, subprocess, sys
+import itertools, json, os, shutil, subprocess, sys
 
-from vf.core import Check, HarnessError, REPO, VERIF, jsonable
+from vf.core import Check, HarnessError, REPO, VERIF, jsonable, tmpdir
 
 from coba.environments import Environments, SupervisedSimulation, CsvSource, ArffSource, LibSvmSource, ManikSource
 from coba.pipes import ListSource, Pipes, HeadRows, Reservoir, LabelRows
@@ -85,6 +85,35 @@ def label_value(lab, code, i=0):
     if lab == 'catmix': return Categorical(u, list(MIXLEVELS[i]))
     if lab in LIST1: return [u]
     return u
+
+
+# csv dialect options handed to CsvSource(**dialect): one representative per option that changes how a line is split
+DIALECTS = {'semi': {'delimiter': ';'}, 'tab': {'delimiter': '\t'}, 'skip': {'skipinitialspace': True},
+            'squote': {'quotechar': "'"}, 'esc': {'escapechar': '\\', 'quoting': 3}}
+
+
+def csv_line(fields, dl):
+    """Own serialisation of one row under the dialect (the reference never parses: expected values are the fields themselves)."""
+    if dl is None: return ','.join(fields)
+    if dl == 'semi': return ';'.join(fields)
+    if dl == 'tab': return '\t'.join(fields)
+    if dl == 'skip': return ', '.join(fields)
+    if dl == 'squote': return ','.join("'%s'" % f if (',' in f or k in (0, len(fields) - 1)) else f for k, f in enumerate(fields))
+    if dl == 'esc': return ','.join(f.replace(',', '\\,') for f in fields)
+    raise ValueError(dl)
+
+
+_SCRATCH = {'dir': None, 'k': 0}
+
+
+def line_source(lines, how, ext):
+    """The lines as a ListSource, or written to a scratch file and handed over as a path / file:// url (the str route of the sources)."""
+    if not how: return ListSource(lines)
+    if _SCRATCH['dir'] is None: _SCRATCH['dir'] = tmpdir()
+    _SCRATCH['k'] = (_SCRATCH['k'] + 1) % 8
+    path = os.path.join(_SCRATCH['dir'], '%d-%d.%s' % (os.getpid(), _SCRATCH['k'], ext))
+    with open(path, 'w') as f: f.write(''.join(l + '\n' for l in lines))
+    return path if how == 'plain' else 'file://' + path
 
 
 class ChainSource(Source):
@@ -180,15 +209,18 @@ def build(case):
                 rows.append(r)
             return (ListSource(rows),), dict(kw, label_col=key)
     elif d in ('csv', 'csvh'):
-        feats = [[str(v) for v in DENSE_F[i][:w]] for i in range(n)]
+        dl = case.get('dl')
+        # under the quoting / escaping dialects the first feature contains the delimiter
+        fld = lambda i, k: str(DENSE_F[i][k]) + (',x' if k == 0 and dl in ('squote', 'esc') else '')
+        feats = [[fld(i, k) for k in range(w)] for i in range(n)]
         labs = [(str(l)) for l in labs]
         heads = ['f%d' % k for k in range(w)]
         heads.insert(col, 'y')
         def make():
-            lines = [','.join(heads)] if d == 'csvh' else []
+            lines = [csv_line(heads, dl)] if d == 'csvh' else []
             for i, c in enumerate(ys):
-                r = [str(v) for v in DENSE_F[i][:w]]; r.insert(col, label_text(lab, c)); lines.append(','.join(r))
-            src = CsvSource(ListSource(lines), has_header=(d == 'csvh'))
+                r = [fld(i, k) for k in range(w)]; r.insert(col, label_text(lab, c)); lines.append(csv_line(r, dl))
+            src = CsvSource(line_source(lines, case.get('path'), 'csv'), has_header=(d == 'csvh'), **(DIALECTS[dl] if dl else {}))
             return (src,), dict(kw, label_col=('y' if by == 'hdr' else col))
     elif d in ('arffd', 'arffs', 'arff2d', 'arff2s'):
         two = d.startswith('arff2')           # the data comes in two ARFF parts that declare the label levels in different orders
@@ -218,7 +250,7 @@ def build(case):
         def make():
             ex = list(enumerate(ys))
             if not two:
-                src = ArffSource(ListSource(part(ex, decl)))
+                src = ArffSource(line_source(part(ex, decl), case.get('path'), 'arff'))
             else:
                 parts = [ex[:1], ex[1:]]
                 src = ChainSource([ArffSource(ListSource(part(e, '{' + ','.join(ARFF2LEVELS[k]) + '}'))) for k, e in enumerate(parts) if e or k == 0])
@@ -230,7 +262,7 @@ def build(case):
             lines = ['%d 2 3' % n] if d == 'manik' else []
             for i, c in enumerate(ys):
                 lines.append(' '.join([label_text(lab, c)] + ['%d:%d' % kv for kv in SPARSE_FI[i].items()]))
-            return ((ManikSource if d == 'manik' else LibSvmSource)(ListSource(lines)),), dict(kw)
+            return ((ManikSource if d == 'manik' else LibSvmSource)(line_source(lines, case.get('path'), 'txt')),), dict(kw)
     else:
         raise ValueError(d)
     if pre:                                   # the caller labels the rows, the simulation sees a source of labelled rows
@@ -321,7 +353,7 @@ class C14(Check):
             'for multi-label, ALL sequences over the 8 subsets (incl. the empty set) of a 3-label universe (lists of str / int, tuples); label_type in '
             '{None,c,r,m} where meaningful for the label kind; delivery in {(X,Y), source of (x,y) pairs, dense rows + label_col index at every position, '
             'HeadRows dense rows by header / index, sparse rows with str / int label key, sparse rows that omit a 0 label, HeadRows sparse rows by header / '
-            'index, PRE-LABELLED sources (dense / headed / sparse rows, ARFF dense+sparse and CSV reader pipelines joined with LabelRows(label, declared type) by the caller, simulation built from the source only) x every declared type in {None,c,r,m} x every requested label_type in {None,c,r,m} meaningful for the label kind (take in {None,2}), positional and source= call styles, CSV (with/without header, by index / header), ARFF dense and sparse (nominal / numeric / string '
+            'index, PRE-LABELLED sources (dense / headed / sparse rows, ARFF dense+sparse and CSV reader pipelines joined with LabelRows(label, declared type) by the caller, simulation built from the source only) x every declared type in {None,c,r,m} x every requested label_type in {None,c,r,m} meaningful for the label kind (take in {None,2}), positional and source= call styles, CsvSource(**dialect) with one representative per csv option that changes how a line is split (delimiter ; and tab, skipinitialspace, quotechar with a field containing the delimiter, escapechar+QUOTE_NONE; lines written by an own serialiser, expected values = the fields), every text source also from a scratch file handed over as a plain path and as a file:// url, CSV (with/without header, by index / header), ARFF dense and sparse (nominal / numeric / string '
             'label attribute, by header / index, every position), LibSVM, Manik (single and comma-separated labels)}; take in {None,0,1,2,N,N+1} for every '
             'source delivery; enumerated exhaustively, fewest examples first. Every case is read twice from fresh objects (SupervisedSimulation.read and '
             'Environments.from_supervised(...)[0].read); the raw object is read a second time (same action list), the action list of every clean case without take is pooled per (delivery, label kind, label types, SET of labels) and post() demands ONE list per pool (fixed order over all sequences / numbers of examples), and 25x2 string-labelled data sets (c and m, X,Y / rows / csv / arff / libsvm / manik) are read again in 3 fresh interpreters with PYTHONHASHSEED 1,2,3 (same list as in this process). A case is non-trivial when the real code produced at least one interaction (which is then compared '
@@ -351,13 +383,22 @@ class C14(Check):
     MIN_NONTRIVIAL = {'quick': 90000, 'thorough': 800000}
     CASE_TIMEOUT = 30
 
+    def setup(self, tier):
+        _SCRATCH['dir'] = tmpdir()
+
+    def teardown(self):
+        if _SCRATCH['dir']: shutil.rmtree(_SCRATCH['dir'], True)
+        _SCRATCH['dir'] = None
+
     # -------------------------------------------------------------- enumeration
     def cases(self, tier):
         maxn = 3 if tier == 'quick' else 5           # thorough: 5 examples for the single-label kinds, 4 for multi-label
         for n in range(0, maxn + 1):
             takes = [None] + [t for t in (0, 1, 2, n, n + 1) if t >= 0]
             takes = [t for i, t in enumerate(takes) if t not in takes[:i]]
-            for d, f, w, col, by, lab in self.shapes(tier):
+            for shape in self.shapes(tier):
+                d, f, w, col, by, lab = shape[:6]
+                extra = shape[6] if len(shape) > 6 else {}
                 ncodes = 8 if lab in MULTI else 3
                 codes = [c for c in range(ncodes) if not (d in ('libsvm', 'manik') and lab in MULTI and not MSETS[c])]
                 if lab in MULTI and (n == 5 or (n == 4 and d not in ('xy', 'pairs', 'rows', 'srows', 'libsvm', 'manik'))): continue
@@ -367,12 +408,13 @@ class C14(Check):
                     for decl in (types if pre else [NA]):
                         if pre and lt is None and decl is None and None not in LABEL_TYPES[lab]: continue      # multi-label is never inferred
                         for take in (takes if d != 'xy' else [None]):
-                            if pre and take not in (None, 2): continue
+                            if (pre or extra) and take not in (None, 2): continue
+                            if extra.get('path') and take is not None: continue
                             if n == 0:
-                                yield self.desc(d, f, w, col, by, lab, lt, take, [], decl)
+                                yield dict(self.desc(d, f, w, col, by, lab, lt, take, [], decl), **extra)
                                 continue
                             for ys in itertools.product(codes, repeat=n):
-                                yield self.desc(d, f, w, col, by, lab, lt, take, list(ys), decl)
+                                yield dict(self.desc(d, f, w, col, by, lab, lt, take, list(ys), decl), **extra)
 
     @staticmethod
     def desc(d, f, w, col, by, lab, lt, take, ys, decl='n/a'):
@@ -437,6 +479,19 @@ class C14(Check):
             yield 'prearffs', 'dense', 2, 1, 'hdr', lab
         for lab in ('str', 'numstr'):
             yield 'precsvh', 'dense', 2, 2, 'hdr', lab
+        for dl in DIALECTS:                                # CsvSource(**dialect): every option that changes how a line is split
+            for lab in ('str', 'numstr'):
+                for col in (0, 2):
+                    yield 'csv', 'dense', 2, col, 'idx', lab, {'dl': dl}
+                    yield 'csvh', 'dense', 2, col, 'hdr', lab, {'dl': dl}
+                yield 'csv', 'dense', 0, 0, 'idx', lab, {'dl': dl}
+        for how in ('plain', 'file'):                      # the str route of the text sources: a path / file:// url instead of a Source
+            yield 'csvh', 'dense', 2, 2, 'hdr', 'str', {'path': how}
+            yield 'csv', 'dense', 2, 0, 'idx', 'numstr', {'path': how, 'dl': 'squote'}
+            yield 'arffd', 'dense', 2, 1, 'hdr', 'cat', {'path': how}
+            yield 'arffs', 'dense', 2, 1, 'hdr', 'float', {'path': how}
+            yield 'libsvm', 'sparsei', None, None, None, 'list1s', {'path': how}
+            yield 'manik', 'sparsei', None, None, None, 'mnumstr', {'path': how}
         for lab in ('str', 'int', 'mstr'):                 # the other call styles of the constructor
             for d in ('rows:pos', 'rows:srckw'):
                 yield d, 'dense', 2, 1, 'idx', lab
@@ -498,7 +553,7 @@ class C14(Check):
         idx = list(range(n)) if take is None else list(Reservoir(take).filter(list(range(n))))
         eff = lt if lt is not None else case.get('decl', NA) if case.get('decl', NA) != NA else None     # an explicit label_type decides, else the declared one
         kinds = [eff] if eff is not None else ADMISSIBLE[lab]
-        rowform = ROWFORM[d]
+        rowform = ROWFORM[d] + (' with dialect options' if case.get('dl') else '') + (' from a file path' if case.get('path') else '')
         by = {'hdr': 'header', 'idx': 'index', None: 'none'}[case.get('by')]
         feat = f'{rowform} label_col={by}'
         nontrivial = False
